@@ -668,6 +668,31 @@ func (sc *C10Scenario) concurrentPhase(out *core.Outcome, st eventbus.EventStore
 			m.log = append(m.log, &eventbus.Event{Type: e.Type, Data: e.Data, Timestamp: e.Timestamp})
 		}
 	}
+	// once the phase is over, a read resumed from the offset any of its Appends returned yields exactly the
+	// events that follow it in the log (no stale "nothing new" left behind by the racing appends)
+	if err == nil && sc.Store.Kind != "ds" {
+		posOf := map[eventbus.Offset]int{}
+		for i, e := range evs {
+			posOf[e.Offset] = i + 1
+		}
+		for _, o := range ops {
+			in := o.Input.(c10In)
+			if !in.Append || o.Output.(c10Out).Err {
+				continue
+			}
+			off := o.Output.(c10Out).Off
+			p, ok := posOf[off]
+			if !ok {
+				out.VS("offset-not-in-log", sc.Store.Kind+":offset-unknown", "[%s] concurrent Append of event %d returned offset %q, which no event of the log carries", sc.Store, in.ID, off)
+				continue
+			}
+			rest, _, rerr := st.Read(ctx, off, 0)
+			if rerr != nil || len(rest) != len(evs)-p {
+				out.VS("read-mismatch", sc.Store.Kind+":short/resumed-from-append-after-race", "[%s] after %d tasks appended concurrently, Read resumed from the offset %q that the Append of event %d returned (log position %d of %d) yields %d events, expected %d (%v)", sc.Store, len(sc.Concurrent), off, in.ID, p, len(evs), len(rest), len(evs)-p, rerr)
+				break
+			}
+		}
+	}
 }
 
 var propC10 = &core.Property{ID: "C10", Gen: genC10, New: func() core.Scenario { return &C10Scenario{} }}
